@@ -96,6 +96,46 @@ def timeout_oracle(fields, impl, model):
     return tags
 
 
+def split_project(fields, x):
+    """drop the model-free flags the harness attaches to every candidate"""
+    if len(x) >= 2 and x[1] == b"redirect":
+        return x[:2]
+    try:
+        n = int(x[1])
+        k = int(x[3 + n])
+        rest = x[4 + n:]
+        if len(rest) == 3 * k and k > 0:
+            rest = rest[0::3]
+        return x[:4 + n] + rest
+    except (ValueError, IndexError):
+        return x
+
+
+def split_oracle(fields, impl, model):
+    """C17: every candidate keeps the typed text up to the start of the last word byte for byte and
+    re-reads (real lexer) as the earlier words followed by the candidate's value"""
+    if impl and impl[0] == b"panic":
+        return [("panic", impl[1][:80] if len(impl) > 1 else b"")]
+    if len(impl) >= 2 and impl[1] == b"redirect":
+        return []
+    try:
+        n = int(impl[1])
+        k = int(impl[3 + n])
+        rest = impl[4 + n:]
+    except (ValueError, IndexError):
+        return [("malformed", b"")]
+    tags = []
+    for i in range(k):
+        cand, p, r = rest[3 * i:3 * i + 3]
+        if p != b"1":
+            tags.append(("prefix-not-preserved", cand))
+            break
+        if r != b"1":
+            tags.append(("relex-differs", cand))
+            break
+    return tags
+
+
 # pid -> list of streams; each stream: harness name, model runner, oracle runner, counts
 PROPS = {
     "C11": dict(streams=[dict(harness="multiparts", model="multiparts", oracle="multiparts_oracle", quick=6000, thorough=200000)],
@@ -166,6 +206,14 @@ PROPS = {
                      "optionally nested in a second Timeout (60/120/200 ms) and inside a Batch; the SAME wrapped Action is invoked 1-3 times in a "
                      "row with different durations; outcome (inner with its description/usage/no-space, alt, alt2) and elapsed time are compared "
                      "with the outcomes the timed model allows; second stream: the same under the race detector"),
+    "C17": dict(streams=[dict(harness="lex", model="lex", oracle=None, quick=6000, thorough=400000),
+                         dict(harness="split", model="split", oracle=None, quick=4000, thorough=200000,
+                              project=split_project, oracle_cmp=split_oracle)],
+                tie="Model/Shlex.v <-> real carapace-shlex Split (every token field); Model/Split.v <-> real Action.Split / SplitP around a marker action",
+                rule="lex: texts of up to 9 atoms over letters, non-ASCII, blanks, both quotes, backslash, | > ; # = : & < ( digits, LF, with and without "
+                     "COMP_WORDBREAKS; split: embedded lines of 0-2 earlier words (plain, quoted, escaped, non-ASCII, flags; with pipeline / redirect "
+                     "operators for SplitP) and a last word in every style (empty, plain, open double / single quote, escaped blank, non-ASCII), "
+                     "candidate values over word characters and blanks, no-space sets; non-trivial = the wrapped action was reached with candidates"),
 }
 
 TRUSTED = ["Go harness stream(s) and extracted oracle of this property (see rule)"]
@@ -343,3 +391,12 @@ def pred_mp_ci_letter_divider(f):
 def pred_never(f):
     """findings documented from probes that no stream of this check generates"""
     return False
+
+
+def pred_split_nonascii_text(f):
+    return any(b >= 128 for b in f["case"][2])
+
+
+def pred_split_redirect_wordbreak(f):
+    import re
+    return b"P" in f["case"][0] and re.search(rb"[<>][&<>]*\s*[=:(@]", f["case"][2]) is not None
